@@ -1,4 +1,135 @@
-(* C09 — placeholder while the model is being tied; replaced by the theorem file. *)
-From WK Require Import Base.Base Model.MsgStore Model.MsgStore_C07 Model.MsgStore_C09.
-Example c09_stub : C09_monitor (C09Case (C07Case true [] []) []) = 0.
-Proof. reflexivity. Qed.
+(* C09 — Storage mutations are crash-atomic (level: PARTIAL).
+   Proved on the model (Model/MsgStore.v over Model/KV.v): every API call commits at
+   most one batch carrying rows, secondary indexes, checkpoint, epoch point and
+   retention state together; under Pebble's contract -- a batch committed with
+   Sync is atomic and durable when Commit returns, batches become durable in
+   commit order (Model/KV.v [crash_states]; TRUSTED, exercised by the crash
+   harness, not proved) -- a stop while a call is in flight recovers the store
+   before or after that call, a stop after its return recovers the store after
+   it, and every recoverable store is related to the plain sequential logs
+   (consistent indexes, log end = last row or retained maximum).
+   For every membership-filter implementation; histories of any length; the
+   multi-channel StoreAppendBatch is covered by the one-batch / crash theorems
+   but not by the refinement ([op_ok]). *)
+From WK Require Import Base.Base Model.KV Gen.Consts_C07 Model.MsgStore Model.MsgStore_C07 Model.MsgStore_C09
+     Proof.KV Proof.MsgStore_base Proof.MsgStore_rel Proof.MsgStore_reads Proof.MsgStore_C07 Proof.MsgStore_C09.
+
+(* One mutation API call = at most one committed batch (append, apply, compat
+   append, multi-channel batch, truncations, trim call, checkpoint), and the call
+   changes the store only through that batch. *)
+Theorem c09_one_batch_per_call :
+  forall (F : Type) (f_empty : F) (f_may : F -> bytes * bytes -> bool) (f_add : F -> bytes * bytes -> F)
+         (st : mstate F) (o : op),
+    let st' := fst (step F f_empty f_may f_add st o) in
+    (st_kv F st' = st_kv F st /\ st_log F st' = st_log F st)
+    \/ exists b, st_kv F st' = kapply (st_kv F st) b /\ st_log F st' = st_log F st ++ [b].
+Proof. exact step_one_batch. Qed.
+Print Assumptions c09_one_batch_per_call.
+
+(* The store is exactly the fold of the committed batches (nothing changes it behind their back). *)
+Theorem c09_store_is_fold_of_batches :
+  forall (F : Type) (f_empty : F) (f_may : F -> bytes * bytes -> bool) (f_add : F -> bytes * bytes -> F)
+         (st : mstate F) (o : op),
+    kv_is_log F st -> kv_is_log F (fst (step F f_empty f_may f_add st o)).
+Proof. exact kv_is_log_preserved. Qed.
+Print Assumptions c09_store_is_fold_of_batches.
+
+(* Atomicity: a crash while a call is in flight recovers the store before the
+   call or the store after it -- never a part of its batch. *)
+Theorem c09_prefix_in_flight :
+  forall (F : Type) (f_empty : F) (f_may : F -> bytes * bytes -> bool) (f_add : F -> bytes * bytes -> F)
+         (st : mstate F) (o : op) (s : kvs),
+    kv_is_log F st ->
+    crash_states key_eqb [] (st_log F (fst (step F f_empty f_may f_add st o))) (length (st_log F st)) s ->
+    s = st_kv F st \/ s = st_kv F (fst (step F f_empty f_may f_add st o)).
+Proof. exact crash_in_flight. Qed.
+Print Assumptions c09_prefix_in_flight.
+
+(* Durability: after the call has returned, every crash recovers the store after it. *)
+Theorem c09_durable_after_return :
+  forall (F : Type) (f_empty : F) (f_may : F -> bytes * bytes -> bool) (f_add : F -> bytes * bytes -> F)
+         (st : mstate F) (o : op) (s : kvs),
+    kv_is_log F st ->
+    crash_states key_eqb [] (st_log F (fst (step F f_empty f_may f_add st o)))
+                 (length (st_log F (fst (step F f_empty f_may f_add st o)))) s ->
+    s = st_kv F (fst (step F f_empty f_may f_add st o)).
+Proof. exact crash_after_return. Qed.
+Print Assumptions c09_durable_after_return.
+
+(* Generic form (Model/KV.v): an invariant kept by every single batch holds in every crash state. *)
+Theorem c09_crash_inv :
+  forall (Inv : kvs -> Prop) (s0 : kvs) (bs : list kbatch),
+    Inv s0 -> (forall s b, Inv s -> In b bs -> Inv (kapply s b)) ->
+    forall durable s, crash_states key_eqb s0 bs durable s -> Inv s.
+Proof. exact (crash_inv key_eqb (K := key) (V := value)). Qed.
+Print Assumptions c09_crash_inv.
+
+(* Recovery: a recoverable store, opened with empty caches, is related to the
+   plain logs whenever it was before: all of C07 (reads total, indexes sound,
+   contiguity, LEO = last row or retained maximum) holds after restart. *)
+Theorem c09_recovered_related :
+  forall (F : Type) (f_empty : F) (kv : kvs) (s : aspec) (log : list kbatch),
+    Rkv kv s -> R F (MS F kv (fun _ => cc_init F f_empty) log) s.
+Proof. exact recovered_related. Qed.
+Print Assumptions c09_recovered_related.
+
+(* The monitor's per-crash predicates hold of every store related to the logs:
+   it shows exactly the logs and satisfies the index invariant ... *)
+Theorem c09_inv :
+  forall (kv : kvs) (s : aspec), Rkv kv s ->
+    recovered_is kv (leos_of kv) s = true /\ kv_inv kv (leos_of kv) s = true.
+Proof. exact related_passes_monitor. Qed.
+Print Assumptions c09_inv.
+
+(* ... hence the monitor accepts every crash observation the model can produce
+   (recovered keys = the model's store after j ops, j inside every label's window). *)
+Theorem c09_model_satisfies_monitor :
+  forall (ops : list op) (crashes : list crash) (kvfinal : list kvent),
+    Forall op_ok ops -> Forall (model_crash (run_kvs xinit ops)) crashes ->
+    C09_monitor (C09Case (C07Case true (entries ops (snd (xrun true ops))) kvfinal) crashes) = 0.
+Proof. exact c09_monitor_zero_on_model. Qed.
+Print Assumptions c09_model_satisfies_monitor.
+
+(* ---- non-vacuity ------------------------------------------------------------------------------------------ *)
+
+Definition c09_rec (i : N) (uid cno : string) : rec := MsgStore.R i (hx cno) (hx uid) [97] 5%Z 0 0 0.
+
+Definition c09_ops : list op :=
+  [ OAppend 0 0 0 [c09_rec 1 "7531" "6e31"; c09_rec 2 "" "6e32"];
+    OApply 0 3 [c09_rec 3 "7532" ""] (Some (1, 0, 2)) (Some (1, 2));
+    OTrim 0 1 0%Z 0%Z; OTrunc 0 3; OCkpt 0 1 0 2 ].
+
+(* every call of this history commits exactly one batch: 5 batches, and the
+   append's batch carries row, global id index, idempotency / client index,
+   sender index and catalog together *)
+Example c09_ex_batches :
+  length (st_log _ (fst (xrun true c09_ops))) = 5%nat
+  /\ length (nth_or [] 0 (st_log _ (fst (xrun true c09_ops)))) = 8%nat.
+Proof. split; vm_compute; reflexivity. Qed.
+
+(* the monitor is not vacuous: a recovered store that holds the row of an append
+   but not its idempotency index entry (a torn batch) is flagged *)
+Example c09_monitor_rejects_torn_batch :
+  C09_monitor (C09Case
+    (C07Case true [E (OAppend 0 0 0 [c09_rec 1 "7531" "6e31"]) (XApp 1 1 1) []] [])
+    [Cr [(0, 1, 0)] [1; 0; 0]
+        [KRow 0 1 1 0 (hx "6e31") (hx "7531") (hashPayload [97]) [97] 5%Z 0; KGid 1 0 1;
+         KSseq 0 (hx "7531") 1 1; KCat 0 0]]) = 1.
+Proof. vm_compute. reflexivity. Qed.
+
+(* ... and so is a lost acknowledged mutation (store before the call although it had returned) *)
+Example c09_monitor_rejects_lost_durable :
+  C09_monitor (C09Case
+    (C07Case true [E (OAppend 0 0 0 [c09_rec 1 "7531" "6e31"]) (XApp 1 1 1) []] [])
+    [Cr [(1, 1, 0)] [0; 0; 0] []]) = 1.
+Proof. vm_compute. reflexivity. Qed.
+
+(* ... while the whole batch, present or absent, is accepted in flight *)
+Example c09_monitor_accepts_atomic :
+  C09_monitor (C09Case
+    (C07Case true [E (OAppend 0 0 0 [c09_rec 1 "7531" "6e31"]) (XApp 1 1 1) []] [])
+    [Cr [(0, 1, 50)] [0; 0; 0] [];
+     Cr [(0, 1, 100); (1, 1, 0)] [1; 0; 0]
+        [KRow 0 1 1 0 (hx "6e31") (hx "7531") (hashPayload [97]) [97] 5%Z 0; KGid 1 0 1;
+         KIdem 0 (hx "6e31") (hx "7531") 1 1 (hashPayload [97]); KSseq 0 (hx "7531") 1 1; KCat 0 0]]) = 0.
+Proof. vm_compute. reflexivity. Qed.
